@@ -755,9 +755,10 @@ def check(P, R, tier):
 LEVEL = ("Decides the data and closed formulas the conversions are built from, against a first-principles Gregorian / ISO 8601 "
          "oracle and for the whole supported range: Jan-01 weekday table with its direct-use interval and 400-year equivalence "
          "map, cumulative month table, 53-week and hang-over case labels, leap year predicate, year-start formula, day-number "
-         "and Unix bases, the validity bound of the day-count -> ymd conversion, and the converter dispatch matrix.  Equality of "
-         "every computed conversion result for all 911,280 days is NOT decided (values computed by loops and multi-step "
-         "arithmetic are outside static reach).")
+         "and Unix bases, the validity bound of the day-count -> ymd conversion, and the converter dispatch matrix.  On top of these "
+         "year-level facts all 20 converters and getters are decoded over the 21 year classes (weekday of 1 January x leap x previous "
+         "year leap) for every day of a representative year and compared with the calendar (RF2-conv), which together covers every "
+         "day of the range.  NOT decided: the Hijri calendar, and the last 606 days of the range (known finding D21).")
 RULE = "obligation = one table / formula / constant / case-label set against the oracle, one converter x source pair"
 ASSUME = ["the oracle (rules/oracle/gregorian.py, ~60 lines, written from the calendar definition) is right",
           "tables are folded from their initialisers, closed formulas without loops are folded over their finite domain"]
